@@ -35,6 +35,38 @@ CLAIMED = {
        "skipped data is charged to the skipping quota, and the charge stays within the documented model plus a small constant.",
   note="As C08. Outside: header cost, references, vectors beyond the stated element counts, untyped decoding.",
   design="§4 C07"),
+ "C01": dict(
+  text="Per Rust type in the menu (28 shapes: primitives, text, options, tuples, vectors incl. wrapper elements) the value is fully "
+       "symbolic: the real serializer's bytes are asserted equal to a reference encoding, and decoding them at the same type returns "
+       "the value (floats by bits) and consumes everything - one solver query per type, all values inside the stated element counts.",
+  note="As C08. Outside: the thread-local type memo and every 'whatever ran before' history (TLS is cut), recursive/Knot types, derive "
+       "field order, the type table, maps/sets, principals/references/enums, Nat/Int as serde targets.",
+  design="§4 C01/C03"),
+ "C03": dict(
+  text="Same harnesses as C01: the value bytes the encoder emits equal, byte for byte, an independent reference encoder written from "
+       "the spec's M rules, for every value of each menu type. Value bytes only.",
+  note="Outside: the type table (TypeSerialize), untyped IDLValue annotate/encode, service/method ordering, determinism (vacuous in a "
+       "deterministic model), derive-macro ordering.",
+  design="§4 C01/C03"),
+ "C15": dict(
+  text="Both real copies of the field hash are decided equal to the spec formula for all valid UTF-8 names up to 8 bytes; Label "
+       "equality/order/hash are decided consistent with the numeric id for symbolic labels, including two different names that "
+       "collide (the solver finds the colliding spelling); check_unique rejects exactly the colliding sorted sequences.",
+  note="Outside: names beyond the byte bound, the derive macro's compile-time sort and record!/variant! macros, the parser's and the "
+       "binary header's duplicate checks.",
+  design="§4 C15"),
+ "C16": dict(
+  text="Printing direction and constructors only: Display of every principal of each instantiated length equals a reference text form "
+       "(own base32 + bitwise CRC-32) and constructors accept exactly 0..=29 bytes. The parsing direction is NOT covered.",
+  note="crc32fast baseline path (SIMD path cut), real data_encoding. Outside: from_text, round trip, canonicity, serde impls, lengths "
+       "not instantiated.",
+  design="§4 C16"),
+ "C20": dict(
+  text="Kernel claim only: the private numeric kernels of the random generator (arbitrary_num for 8 integer types, arbitrary_variant, "
+       "arbitrary_len) return an error or an in-range result and never panic, for all configured ranges/weights and entropy strings.",
+  note="Outside (most of the property): type-directed generation, depth/size budget, termination on recursive types, text, config "
+       "parsing, 'annotates unchanged / encodes'.",
+  design="§4 C20"),
 }
 
 NA = {
